@@ -10,6 +10,129 @@ def or_operands(e):
     return [e]
 
 
+def traversal_form(facts, fn, expr_enum="Expression", op_enum="Operator"):
+    """`fn` written as `ITER.any(PRED)` where ITER is a hand-written iterator of the crate over the nodes of the tree (an
+    explicit work list instead of recursion).  Decided by induction on what is left to visit, the step being *evaluated*:
+
+      - ITER starts with exactly the root pending;
+      - one `next()` on a state whose work list holds an unknown rest R and a node X — X of every node kind in turn, operator
+        nodes with unknown operands — returns Some(X) and leaves exactly R plus every operand of X pending (each once, in
+        whatever order, stack or queue), touching nothing else; on an empty work list it returns None.
+
+    Hence ITER yields every node of the tree exactly once, and `fn` is "PRED holds for some node".
+    -> None if `fn` is not of this form, else dict(pred=callable(node) -> value, problems=[..], iterator=type name)"""
+    from . import probe as P
+
+    pr = P.Probe(facts, expr_enum, fn.module)
+    root = P.Opq("root")
+    marker = P.Opq("any(..)")
+    got = {}
+
+    def hook(pr_, e, env):
+        recv = pr_.ev(e["recv"], env)
+        if not (isinstance(recv, dict) and recv.get("__ty") and len(e["args"]) == 1):
+            return NotImplemented
+        nxt = facts.fns.get("<%s as Iterator>::next" % recv["__ty"])
+        if nxt is None or "state" in got:
+            return NotImplemented
+        got.update(state=recv, pred=pr_.ev(e["args"][0], env), next=nxt)
+        return marker
+
+    pr.mhooks["any"] = hook
+
+    def through(pr_, e, env):
+        # a method of the tree type called on the (unknown) root: the crate's own function, evaluated
+        recv = pr_.ev(e["recv"], env)
+        f_ = facts.fns.get("%s::%s" % (expr_enum, e["m"]))
+        if recv is root and f_ is not None and f_.key != fn.key:
+            return pr_.invoke(f_, root, [pr_.ev(a, env) for a in e["args"]])
+        return NotImplemented
+
+    for f_ in facts.fns.values():
+        if f_.impl is not None and not f_.test and norm_ty(f_.impl["self_ty"]) == expr_enum and not f_.impl.get("trait") and f_.name != "any":
+            pr.mhooks[f_.name] = through
+    try:
+        res = pr.invoke(fn, root, [])
+    except (P.NoEval, P.Panic):
+        return None
+    if "state" not in got:
+        return None
+    problems = []
+    if res is not marker:
+        problems.append("the result is not the `any(..)` over the traversal itself (%r)" % (res,))
+    st0, nxt = got["state"], got["next"]
+    lists = [k for k, v in st0.items() if isinstance(v, list)]
+    if len(lists) != 1 or len(st0[lists[0]]) != 1 or st0[lists[0]][0] is not root:
+        problems.append("the traversal does not start with exactly the root pending (%s)" % ({k: v for k, v in st0.items() if k != "__ty"},))
+        return dict(pred=None, problems=problems, iterator=st0["__ty"], accounted={nxt.key})
+    wl = lists[0]
+    others = {k: v for k, v in st0.items() if k not in (wl, "__ty")}
+    oinfo = {v["name"]: len(v["fields"]) for v in facts.enum(op_enum)["variants"]}
+    kinds = []
+    for v in facts.variants(expr_enum):
+        if v == "Operator":
+            for w, n in oinfo.items():
+                subs = [P.Opq("%s.%d" % (w, i)) for i in range(n)]
+                kinds.append(("%s::%s" % (op_enum, w), ("enum", "%s::Operator" % expr_enum, [("enum", "%s::%s" % (op_enum, w), list(subs))]), subs))
+        else:
+            kinds.append(("%s::%s" % (expr_enum, v), ("enum", "%s::%s" % (expr_enum, v), [P.Opq("payload") for _ in facts.variant_fields(expr_enum, v)]), []))
+    accounted = {nxt.key}
+    for name, X, subs in kinds:
+        for before in ([P.Opq("rest"), X], [X, P.Opq("rest")]):
+            rest = [x for x in before if x is not X]
+            state = dict(st0, **{wl: list(before)})
+            state.update({k: (list(v) if isinstance(v, list) else v) for k, v in others.items()})
+            p2 = P.Probe(facts, st0["__ty"], nxt.module)
+            try:
+                r = p2.invoke(nxt, state, [])
+            except (P.NoEval, P.Panic) as ex:
+                problems.append("next() on a pending %s node is not evaluable: %s" % (name, ex))
+                break
+            finally:
+                accounted.update(p2.invoked)
+            if not (isinstance(r, tuple) and len(r) == 2 and r[0] == "some"):
+                problems.append("next() with a %s node pending returns %r" % (name, r))
+                break
+            if r[1] is X:
+                after = state[wl]
+                want = sorted(map(id, rest + subs))
+                if not isinstance(after, list) or sorted(map(id, after)) != want:
+                    missing = [repr(x) for x in subs if not any(y is x for y in (after if isinstance(after, list) else []))]
+                    problems.append("after visiting a %s node the pending nodes are %r: %s" % (name, after, ("its operand(s) %s are never visited" % ", ".join(missing)) if missing else "not the rest plus each operand once"))
+                    break
+                if any(state.get(k) != v for k, v in others.items()):
+                    problems.append("next() on a %s node changes %s" % (name, [k for k, v in others.items() if state.get(k) != v]))
+                    break
+                break  # the node taken was X: this is the order the work list is served in
+            # the other end of the work list was served (the unknown rest): try the other order
+        else:
+            problems.append("next() never serves a pending %s node" % name)
+    p3 = P.Probe(facts, st0["__ty"], nxt.module)
+    try:
+        r = p3.invoke(nxt, dict(st0, **{wl: []}), [])
+        if r is not None:
+            problems.append("next() on an empty work list returns %r, not None" % (r,))
+    except (P.NoEval, P.Panic) as ex:
+        problems.append("next() on an empty work list is not evaluable: %s" % ex)
+    predv = got["pred"]
+
+    def pred(node):
+        return pr.apply(predv, [node])
+
+    # an operator node itself must not satisfy the predicate by looking into its operands (they are visited on their own)
+    for name, X, subs in kinds:
+        if subs or name.startswith(op_enum + "::"):
+            try:
+                v = pred(X)
+            except (P.NoEval, P.Panic) as ex:
+                problems.append("the predicate on a %s node is not evaluable (%s)" % (name, ex))
+                continue
+            if v is not False:
+                problems.append("the predicate yields %r on a %s node" % (v, name))
+    accounted.update(pr.invoked)
+    return dict(pred=pred, problems=problems, iterator=st0["__ty"], accounted=accounted, probe=pr)
+
+
 def check_exists(facts, fn, expr_enum="Expression", op_enum="Operator"):
     """`fn` (Expression -> bool) is a correct recursive 'exists over the action nodes', by structural induction whose cases
     are *evaluated* (vlib/probe.py):
@@ -69,6 +192,17 @@ def check_exists(facts, fn, expr_enum="Expression", op_enum="Operator"):
         finally:
             invoked.update(pr.invoked)
 
+    trav = traversal_form(facts, fn, expr_enum, op_enum)
+    if trav is not None:
+        problems += trav["problems"]
+        invoked.update(trav.get("accounted") or ())
+        if trav["pred"] is None:
+            return dict(ok=False, problems=problems, hidden=[], accounted=sorted(invoked | {fn.key}), action={}, leaf=None, traversal=trav["iterator"])
+        run_rec = run
+
+        def run(selfv, subs=(), assign=()):
+            return trav["pred"](selfv)
+
     ok_all = True
     try:
         # leaves
@@ -80,8 +214,8 @@ def check_exists(facts, fn, expr_enum="Expression", op_enum="Operator"):
             r = run(("enum", "%s::%s" % (expr_enum, v), [P.Opq("payload") for _ in facts.variant_fields(expr_enum, v)]))
             if r is not False:
                 problems.append("a %s node yields %r, not false" % (v, r))
-        # operators
-        for w, ftys in oinfo.items():
+        # operators (the traversal form has no recursion: its step was decided above)
+        for w, ftys in (oinfo.items() if trav is None else ()):
             subs = [P.Opq("sub%d" % i) for i in range(len(ftys))]
             node = ("enum", "%s::Operator" % expr_enum, [("enum", "%s::%s" % (op_enum, w), list(subs))])
             for assign in itertools.product((False, True), repeat=len(subs)):
@@ -142,6 +276,8 @@ def check_exists(facts, fn, expr_enum="Expression", op_enum="Operator"):
             action[a] = rows
     except (P.NoEval, P.Panic) as ex:
         return dict(ok=None, problems=["not evaluable: %s" % ex], hidden=[], accounted=sorted(invoked | {fn.key}), action={}, leaf=None)
+    if trav is not None and trav.get("probe") is not None:
+        invoked.update(trav["probe"].invoked)
     return dict(ok=not problems, problems=problems, hidden=hidden, accounted=sorted(invoked | {fn.key}), action=action, leaf=None)
 
 
